@@ -833,41 +833,147 @@ func ruleKVFind(c *Ctx, rule string, names ...string) {
 
 // ---------- shared helper: structural keys for comparing sibling functions ----------
 
-// shapeKey renders a value as a term over parameters (by index), constants, library/package calls and slicing, with
-// no instruction numbers, so that the same computation in two sibling functions gives the same text.
-func (w *World) shapeKey(v ssa.Value, depth int, seen map[ssa.Value]bool) string {
+// shapeAlt is one alternative a value can take, in a normal form in which spelling differences that do not change the
+// value disappear: sums are flattened with their constants added up, a slice of a slice is one slice of the base, and
+// a value joined from several paths (a phi) is expanded into its alternatives.
+type shapeAlt struct {
+	s     string    // rendering of an opaque term
+	isSum bool      // adds + k
+	adds  []string  // sorted addends
+	k     int64     // constant addend
+	isSl  bool      // base[low:high]
+	base  string    // rendering of the sliced value
+	low   *shapeAlt // nil: 0
+	high  *shapeAlt // nil: open
+}
+
+func (a shapeAlt) String() string {
+	switch {
+	case a.isSum:
+		parts := append([]string{}, a.adds...)
+		if a.k != 0 || len(parts) == 0 {
+			parts = append(parts, fmt.Sprint(a.k))
+		}
+		if len(parts) == 1 {
+			return parts[0]
+		}
+		return "(" + strings.Join(parts, "+") + ")"
+	case a.isSl:
+		lo, hi := "0", "_"
+		if a.low != nil {
+			lo = a.low.String()
+		}
+		if a.high != nil {
+			hi = a.high.String()
+		}
+		return a.base + "[" + lo + ":" + hi + "]"
+	}
+	return a.s
+}
+
+func shapeSum(x, y *shapeAlt) *shapeAlt {
+	out := shapeAlt{isSum: true}
+	for _, a := range []*shapeAlt{x, y} {
+		switch {
+		case a == nil:
+		case a.isSum:
+			out.adds = append(out.adds, a.adds...)
+			out.k += a.k
+		default:
+			out.adds = append(out.adds, a.String())
+		}
+	}
+	sort.Strings(out.adds)
+	return &out
+}
+
+const shapeAltCap = 48
+
+// shapeAlts: the alternatives of v (at most shapeAltCap; beyond that the value is rendered as one opaque join).
+func (w *World) shapeAlts(v ssa.Value, depth int, seen map[ssa.Value]bool) []shapeAlt {
+	one := func(s string) []shapeAlt { return []shapeAlt{{s: s}} }
 	if v == nil {
-		return "_"
+		return nil
 	}
 	v = strip(v)
-	if depth > 8 {
-		return "…"
+	if depth > 10 {
+		return one("…")
 	}
 	if seen[v] {
-		return "loop"
+		return one("loop")
 	}
 	switch x := v.(type) {
 	case *ssa.Const:
 		if s, ok := constString(x); ok {
-			return fmt.Sprintf("%q", s)
+			return one(fmt.Sprintf("%q", s))
 		}
 		if k, ok := constInt(x); ok {
-			return fmt.Sprint(k)
+			return []shapeAlt{{isSum: true, k: k}}
 		}
-		return x.Value.String()
+		return one(x.Value.String())
 	case *ssa.Parameter:
 		for i, p := range x.Parent().Params {
 			if p == x {
-				return fmt.Sprintf("p%d", i)
+				return one(fmt.Sprintf("p%d", i))
 			}
 		}
-		return "p?"
+		return one("p?")
 	case *ssa.BinOp:
-		return "(" + w.shapeKey(x.X, depth+1, seen) + x.Op.String() + w.shapeKey(x.Y, depth+1, seen) + ")"
+		var out []shapeAlt
+		for _, a := range w.shapeAlts(x.X, depth+1, seen) {
+			for _, b := range w.shapeAlts(x.Y, depth+1, seen) {
+				a, b := a, b
+				if x.Op == token.ADD && !isStringType(x.Type()) {
+					out = append(out, *shapeSum(&a, &b))
+				} else {
+					out = append(out, shapeAlt{s: "(" + a.String() + x.Op.String() + b.String() + ")"})
+				}
+			}
+		}
+		return capAlts(out)
 	case *ssa.Slice:
-		return w.shapeKey(x.X, depth+1, seen) + "[" + w.shapeKey(x.Low, depth+1, seen) + ":" + w.shapeKey(x.High, depth+1, seen) + "]"
+		opt := func(v ssa.Value) []*shapeAlt {
+			if v == nil {
+				return []*shapeAlt{nil}
+			}
+			var out []*shapeAlt
+			for _, a := range w.shapeAlts(v, depth+1, seen) {
+				a := a
+				if a.isSum && len(a.adds) == 0 && a.k == 0 {
+					out = append(out, nil)
+					continue
+				}
+				out = append(out, &a)
+			}
+			return out
+		}
+		var out []shapeAlt
+		for _, b := range w.shapeAlts(x.X, depth+1, seen) {
+			for _, lo := range opt(x.Low) {
+				for _, hi := range opt(x.High) {
+					if b.isSl {
+						// b.base[b.low:b.high][lo:hi] = b.base[b.low+lo : b.low+hi] (hi open: b.high)
+						n := shapeAlt{isSl: true, base: b.base, low: b.low, high: b.high}
+						if lo != nil {
+							n.low = shapeSum(b.low, lo)
+						}
+						if hi != nil {
+							n.high = shapeSum(b.low, hi)
+						}
+						out = append(out, n)
+						continue
+					}
+					out = append(out, shapeAlt{isSl: true, base: b.String(), low: lo, high: hi})
+				}
+			}
+		}
+		return capAlts(out)
 	case *ssa.Extract:
-		return w.shapeKey(x.Tuple, depth+1, seen) + "#" + fmt.Sprint(x.Index)
+		var out []shapeAlt
+		for _, a := range w.shapeAlts(x.Tuple, depth+1, seen) {
+			out = append(out, shapeAlt{s: a.String() + "#" + fmt.Sprint(x.Index)})
+		}
+		return out
 	case *ssa.Call:
 		name := w.calleeName(x)
 		switch name {
@@ -876,49 +982,122 @@ func (w *World) shapeKey(v ssa.Value, depth int, seen map[ssa.Value]bool) string
 		case "strings.LastIndexByte", "strings.LastIndex":
 			name = "lastindex"
 		}
-		var as []string
-		for _, a := range x.Call.Args {
+		combos := []string{""}
+		for i, a := range x.Call.Args {
+			var as []string
 			if b, ok := constByte(a); ok {
-				as = append(as, fmt.Sprintf("%q", string(b)))
-				continue
+				as = []string{fmt.Sprintf("%q", string(b))}
+			} else {
+				for _, al := range w.shapeAlts(a, depth+1, seen) {
+					as = append(as, al.String())
+				}
 			}
-			as = append(as, w.shapeKey(a, depth+1, seen))
+			var next []string
+			for _, c := range combos {
+				for _, s := range as {
+					if i > 0 {
+						next = append(next, c+","+s)
+					} else {
+						next = append(next, s)
+					}
+				}
+			}
+			if len(next) > shapeAltCap {
+				next = next[:shapeAltCap]
+			}
+			combos = next
 		}
-		return name + "(" + strings.Join(as, ",") + ")"
+		var out []shapeAlt
+		for _, c := range combos {
+			out = append(out, shapeAlt{s: name + "(" + c + ")"})
+		}
+		return out
 	case *ssa.Phi:
 		seen[v] = true
-		var es []string
+		var out []shapeAlt
 		for _, e := range x.Edges {
-			es = append(es, w.shapeKey(e, depth+1, seen))
+			out = append(out, w.shapeAlts(e, depth+1, seen)...)
 		}
 		delete(seen, v)
-		sort.Strings(es)
-		return "phi(" + strings.Join(es, "|") + ")"
+		return capAlts(out)
 	case *ssa.UnOp:
 		if x.Op == token.MUL {
 			if fa, ok := x.X.(*ssa.FieldAddr); ok {
-				return w.shapeKey(fa.X, depth+1, seen) + "." + fieldName(fa.X.Type(), fa.Field)
+				var out []shapeAlt
+				for _, a := range w.shapeAlts(fa.X, depth+1, seen) {
+					out = append(out, shapeAlt{s: a.String() + "." + fieldName(fa.X.Type(), fa.Field)})
+				}
+				return out
 			}
-			return "*" + w.shapeKey(x.X, depth+1, seen)
+			var out []shapeAlt
+			for _, a := range w.shapeAlts(x.X, depth+1, seen) {
+				out = append(out, shapeAlt{s: "*" + a.String()})
+			}
+			return out
 		}
-		return x.Op.String() + w.shapeKey(x.X, depth+1, seen)
+		var out []shapeAlt
+		for _, a := range w.shapeAlts(x.X, depth+1, seen) {
+			out = append(out, shapeAlt{s: x.Op.String() + a.String()})
+		}
+		return out
 	case *ssa.Alloc:
-		return "new"
+		return one("new")
 	case *ssa.Convert:
-		return w.shapeKey(x.X, depth+1, seen)
+		return w.shapeAlts(x.X, depth+1, seen)
 	}
-	return fmt.Sprintf("%T", v)
+	return one(fmt.Sprintf("%T", v))
 }
 
-// callShapes: the multiset of "callee(argument shapes)" over the calls of fn to the named callees.
-func (w *World) callShapes(fn *ssa.Function, callees ...string) []string {
-	var out []string
-	for _, cs := range w.callsIn(fn, callees...) {
-		var as []string
-		for _, a := range cs.In.Common().Args {
-			as = append(as, w.shapeKey(a, 0, map[ssa.Value]bool{}))
+// capAlts removes duplicates and folds an over-long list into one opaque join (sorted, so still comparable).
+func capAlts(in []shapeAlt) []shapeAlt {
+	seen := map[string]bool{}
+	var out []shapeAlt
+	for _, a := range in {
+		if k := a.String(); !seen[k] {
+			seen[k] = true
+			out = append(out, a)
 		}
-		out = append(out, cs.Name+"("+strings.Join(as, ", ")+")")
+	}
+	if len(out) > shapeAltCap {
+		var ks []string
+		for _, a := range out {
+			ks = append(ks, a.String())
+		}
+		sort.Strings(ks)
+		return []shapeAlt{{s: "phi(" + strings.Join(ks, "|") + ")"}}
+	}
+	return out
+}
+
+// callShapes: the set of "callee(argument shapes)" over the calls of fn to the named callees, one entry per
+// alternative of the arguments: decode(phi(a|b)) and the two calls decode(a), decode(b) hand over the same pieces.
+func (w *World) callShapes(fn *ssa.Function, callees ...string) []string {
+	set := map[string]bool{}
+	for _, cs := range w.callsIn(fn, callees...) {
+		combos := []string{""}
+		for i, a := range cs.In.Common().Args {
+			var next []string
+			for _, c := range combos {
+				for _, al := range w.shapeAlts(a, 0, map[ssa.Value]bool{}) {
+					if i > 0 {
+						next = append(next, c+", "+al.String())
+					} else {
+						next = append(next, al.String())
+					}
+				}
+			}
+			if len(next) > shapeAltCap {
+				next = next[:shapeAltCap]
+			}
+			combos = next
+		}
+		for _, c := range combos {
+			set[cs.Name+"("+c+")"] = true
+		}
+	}
+	var out []string
+	for k := range set {
+		out = append(out, k)
 	}
 	sort.Strings(out)
 	return out
@@ -1417,7 +1596,8 @@ func ruleSplitRemainder(c *Ctx, rule string) {
 				}
 				switch a.Kind {
 				case "eqk":
-					return a.K == maxK+1, true
+					// a smaller count (the case 1 of a switch over the number of parts) bounds the parts as well
+					return a.K >= 1 && a.K <= maxK+1, true
 				case "ltk":
 					return a.K <= maxK+2, true
 				}
@@ -1425,17 +1605,33 @@ func ruleSplitRemainder(c *Ctx, rule string) {
 			}
 			lenTested := len(useSites) > 0
 			for _, us := range useSites {
-				okSite := false
-				for _, a := range w.atomsOf(fn) {
-					if m, val := bounded(a); m && w.requires(fn, us, func(b Atom) bool { return b.Key == a.Key }, val) {
-						okSite = true
+				// every path to the use passes a test that bounds the number of parts (one of several: case 1, 2)
+				okSite := canReach(entryPt(fn), nil, isInstr(us), nil) && w.unreachableUnder(fn, us, func(a Atom, _ *ssa.If) (bool, bool) {
+					if m, val := bounded(a); m {
+						return true, !val
 					}
-				}
+					return false, false
+				})
 				if !okSite {
 					lenTested = false
 				}
 			}
 			c.Fns[w.fname(fn)] = true
+			// every part the count test lets through is taken: a part that is cut off and never looked at is text
+			// the decoder drops (the protocol name of a Via replaced by a constant)
+			usedIdx := map[int64]bool{}
+			for _, us := range useSites {
+				if k, isK := constInt(us.(*ssa.IndexAddr).Index); isK {
+					usedIdx[k] = true
+				}
+			}
+			var unused []string
+			for k := int64(0); k <= maxK; k++ {
+				if !usedIdx[k] {
+					unused = append(unused, fmt.Sprint(k))
+				}
+			}
+			c.check(len(unused) == 0, rule, fmt.Sprintf("%s/split-parts-used#%d", w.fname(fn), per), w.ipos(call), "every part up to the highest one taken is used", w.fname(fn)+" cuts its text with strings.Split(..., "+w.termKey(call.Call.Args[1])+") and never looks at part "+strings.Join(unused, ", ")+": that piece of the header is dropped by the decoder and cannot be re-encoded")
 			c.check(lenTested, rule, fmt.Sprintf("%s/split-parts#%d", w.fname(fn), per), w.ipos(call), "the number of parts is bounded where fixed parts are taken", w.fname(fn)+" takes fixed parts of strings.Split(..., "+w.termKey(call.Call.Args[1])+") without having excluded further parts: what follows a further separator is silently dropped (a tag such as dGFnLTE= or b2b7f3a1=1 is cut at its '=')")
 		}
 	}
